@@ -86,6 +86,9 @@ SyView == <<syvars, nenv, NConn, NRst, NAsk, NRaw, dropped, knownOnly, script>>
 \* random choice among several candidates: only single-candidate situations are generated for replay
 ChoiceConstraint == Cardinality(Candidates(pk, rows)) <= 1 \/ syncPeer # 0 \/ mq = <<>>
 
+\* reachability witness (must be VIOLATED by the families that are meant to exercise a banned host coming back)
+NoBannedConnect == \A k \in 1 .. Len(hist) : (hist[k].kind = "env" /\ hist[k].op = "connect") => ~hist[k].banned
+NoBanYet == ban = {}
 Terminal == mq = <<>> /\ nenv >= EnvBound /\ Pending = {}
 Scn == [par |-> [b \in 1 .. NB |-> ParV[b]], cps |-> SetToSeq(CpsV), cpEnabled |-> CpEnabled, forbid |-> SetToSeq(Forbid), cap |-> Cap, name |-> Scenario,
         findings |-> SetToSeq(Findings)]
